@@ -1,7 +1,7 @@
 (** C01 - Parent and children links always describe one consistent forest.
     Only statements; proofs are [exact <lemma of Proofs/>]. *)
 Require Import AT.Model.Base AT.Model.Heap AT.Model.Mutate AT.Spec.MutSpec.
-Require AT.Proofs.MutInv AT.Proofs.MutHistory.
+Require AT.Proofs.MutInv AT.Proofs.MutHistory AT.Proofs.MutParent AT.Proofs.MutDelRun.
 Import AT.Proofs.MutInv AT.Proofs.MutHistory.
 
 (** One step: ANY call (the three assignments and the constructors), with ANY
@@ -53,7 +53,22 @@ Theorem C01_inv_b_complete : forall h, Inv h -> inv_b h = true.
 Proof. exact inv_b_complete. Qed.
 Print Assumptions C01_inv_b_complete.
 
-(** Not yet proved (kept visible): under [Inv] no internal assertion fires, so
+(** under [Inv] the internal assertions of the parent setter and of the
+    children deleter hold: ANYTREE_ASSERTIONS on and off behave identically
+    (fault-free calls; the children setter's assertion is not yet proved) *)
+Theorem C01_assertions_parent_del : forall typed n v s,
+  let h := heap_of s in
+  Inv h -> n < length h -> (match v with Some q => q < length h | None => True end) ->
+  set_parent typed true no_faults n (MutParent.opt_value v) s = set_parent typed false no_faults n (MutParent.opt_value v) s /\
+  del_children typed true no_faults n s = del_children typed false no_faults n s.
+Proof.
+  intros typed n v s h I Hn Hv. split.
+  - rewrite (MutParent.set_parent_run typed true n v s I Hn Hv), (MutParent.set_parent_run typed false n v s I Hn Hv). reflexivity.
+  - rewrite (MutDelRun.del_children_run typed true n s I Hn), (MutDelRun.del_children_run typed false n s I Hn). reflexivity.
+Qed.
+Print Assumptions C01_assertions_parent_del.
+
+(** Not yet proved in full (kept visible): under [Inv] no internal assertion fires, so
     ANYTREE_ASSERTIONS on/off behave identically.  The correspondence check
     evaluates it on every explored call (no AssertionError observed; the
     assertion-on interpreter agrees with the model). *)
